@@ -90,12 +90,14 @@ def check_graph(ctx, spec, kind, max_queries=None, triples=None, tag="E",
                     % (list(S), node), case)
       # implications that hold on every graph
       if got:
-        ctx.check(can, "accepted-but-CanHaveCombination-false",
+        ctx.check(can, "accepted-but-CanHaveCombination-false:" +
+                  graph_class(spec),
                   "HasCombination(%s) at n%d but not CanHaveCombination" %
                   (list(S), node), case)
         for i in S:
           ok = any(w in reach for w in ref.origin_at[i])
-          ctx.check(ok, "accepted-goal-not-backward-reachable",
+          ctx.check(ok, "accepted-goal-not-backward-reachable:" +
+                    graph_class(spec),
                     "goal %d of %s at n%d has no reachable origin" %
                     (i, list(S), node), case)
         if len(S) >= 2:
